@@ -92,9 +92,9 @@ func runConcChecks(c *explore.Ctx, id string, drivers []concParams, bound int, p
 			c.Sample(map[string]any{"driver": d.Name, "clients": d.Clients, "outcomes": keysOf(last.Outcomes, 4)})
 		}
 	}
-	c.Coverage["distinct_nontrivial"] = hists
+	c.Add("distinct_nontrivial", hists)
 	c.Coverage["per_driver"] = per
-	c.Coverage["exhaustive"] = exh
+	c.SetExhaustive(exh)
 	c.Coverage["bound"] = bound
 	c.Coverage["worker_crashes"] = pool.Crashes
 }
